@@ -642,9 +642,20 @@ func (g *FuncGen) unop(x *ssa.UnOp) {
 			}
 		}
 		r := g.loadFrom(v, pt, g.cur)
+		fromEntryHeap := false
+		if rest := strings.TrimPrefix(strings.TrimPrefix(r.T, "(select "), "(select "); rest != r.T {
+			if k := strings.IndexByte(rest, ' '); k > 0 && strings.HasSuffix(rest[:k], "@0") {
+				fromEntryHeap = true
+			}
+		}
 		r = g.define(x, r.T)
-		// loaded references are allocated
-		g.assumeWellTyped(r, pt, g.cur)
+		// loaded references are allocated; a value read from a heap class that has not been written since
+		// function entry refers to an object that already existed at entry (the entry heap is closed)
+		if fromEntryHeap {
+			g.assumeWellTyped(r, pt, g.entry)
+		} else {
+			g.assumeWellTyped(r, pt, g.cur)
+		}
 	case token.NOT:
 		g.set(x, Val{T: not(v.T), S: SBool})
 	case token.SUB:
